@@ -33,9 +33,10 @@ pub fn info() -> PropertyInfo {
     PropertyInfo {
         id: "C05",
         level: "exploration",
-        rule: "case = ST project (generated: 1-4 files, up to 14 TYPEs, 10 functions, 4 interfaces, 12 classes/FBs with methods, inheritance and nested instances, 6 programs, 22 globals, tasks, AT bindings, retain variables, namespaces; or a project directory / single file of /repo) + trace of 2-6 cycles (clock steps, direct-input and global writes), compiled twice and run twice in each of K>=3 separately started OS processes (different environment size, pre-spawned threads, allocation pre-amble); non-trivial = the project compiles, its container has >= 3 POUs and >= 20 interned strings and the trace has >= 2 cycles; distinct by SHA-256 of sources + trace",
+        rule: "evaluation = a BATCH of 3 different ST projects (generated: 1-4 files, up to 14 TYPEs incl. inline arrays, 10 functions, 4 interfaces, 12 classes/FBs with methods, inheritance and nested instances, 6 programs, 22 globals, tasks, AT bindings, retain variables, namespaces; or project directories / single files of /repo), each with a trace of 2-6 cycles (clock steps, direct-input and global writes); every project is compiled twice and run twice in each of K>=3 separately started OS processes (different environment size, pre-spawned threads, allocation pre-amble) and every process works through the batch in its own order (as listed / reversed / rotated; one process per three runs each project on a thread of its own, the others the whole batch on one thread), so each project is observed as the first thing a process does and behind one or two unrelated projects; non-trivial = at least two projects of the batch compile with >= 3 POUs and >= 20 interned strings and traces of >= 2 cycles; distinct by SHA-256 of all sources + traces",
         assumptions: &[
             "one machine: differences that need another CPU/endianness/libm are out of reach",
+            "process history is varied by what the same process compiled/ran before (1-2 other projects of the batch, same thread or earlier threads); longer histories and other API calls before a compilation are not explored",
             "the runtime is driven through CompileSession::build_runtime + Runtime::{advance_time, execute_cycle, io_mut().write, storage_mut().set_global} (what TestHarness does, plus source paths)",
             "the `time` field of every RuntimeEvent is the simulation clock (read in runtime/cycle.rs, core.rs apply_fault) and is compared; RuntimeMetrics (wall-clock durations, only recorded when a metrics sink is installed) are diagnostics, not program state, and are not compared",
         ],
@@ -93,6 +94,25 @@ impl Case {
         k
     }
 }
+
+/// What one evaluation works on: a batch of DIFFERENT projects. Every child processes the whole
+/// batch, each in its own order, so that the result of a project can be compared between "first
+/// thing the process did" and "after one or two unrelated projects on the same thread".
+#[derive(Clone, Debug, Serialize, Deserialize)]
+pub struct Batch {
+    pub cases: Vec<Case>,
+    #[serde(skip)]
+    pub fresh: bool,
+}
+
+#[derive(Clone, Debug, Serialize, Deserialize)]
+pub struct CorpusBatch {
+    pub picks: Vec<CorpusPick>,
+    #[serde(skip)]
+    pub fresh: bool,
+}
+
+const BATCH: usize = 3;
 
 // --------------------------------------------------------------------------- strategies
 
@@ -263,11 +283,41 @@ struct Children {
 
 /// Start K children on the job; each gets its own environment size, thread count and
 /// allocation pre-amble. Returns per child the per-case results, or an infrastructure error.
+/// Order in which child `i` processes a batch of `n` cases: as listed, reversed, and the
+/// rotations of both (for n = 3 the six children of the thorough tier cover all six
+/// permutations; with the three children of the quick tier every case is the FIRST thing a
+/// process does in exactly one child and runs behind one or two other projects in the others).
+fn child_order(i: usize, n: usize) -> Vec<usize> {
+    let mut v: Vec<usize> = (0..n).collect();
+    if n == 0 {
+        return v;
+    }
+    if i % 2 == 1 {
+        v.reverse();
+    }
+    v.rotate_left((i / 2) % n);
+    v
+}
+
+/// Children 2 and 5 run every case on a thread of its own, the others the whole batch on one.
+fn child_separate_threads(i: usize) -> bool {
+    i % 3 == 2
+}
+
 fn run_children(ch: &Children, cases: &[ChildCase], full: bool, pause: bool) -> Result<Vec<Vec<CaseResult>>, String> {
     let exe = std::env::current_exe().map_err(|e| format!("current_exe: {e}"))?;
     let mut procs = Vec::new();
     for i in 0..ch.k {
-        let job = Job { cases: cases.to_vec(), full, threads: [0usize, 3, 7, 1, 12, 5][i % 6], allocs: [0usize, 1500, 9000, 300, 40000, 5][i % 6], pause_ms: if pause && i == 1 { 1100 } else { 0 }, public_api: i == 0 };
+        let job = Job {
+            cases: cases.to_vec(),
+            full,
+            threads: [0usize, 3, 7, 1, 12, 5][i % 6],
+            allocs: [0usize, 1500, 9000, 300, 40000, 5][i % 6],
+            pause_ms: if pause && i == 1 { 1100 } else { 0 },
+            public_api: i == 0,
+            order: child_order(i, cases.len()),
+            separate_threads: child_separate_threads(i),
+        };
         let path = ch.job_path.with_extension(format!("{i}.json"));
         std::fs::write(&path, serde_json::to_vec(&job).map_err(|e| e.to_string())?).map_err(|e| format!("write job: {e}"))?;
         let pad = "x".repeat(17 + i * 3001);
@@ -425,31 +475,7 @@ fn find_mismatch(results: &[Vec<CaseResult>], case_idx: usize) -> Option<(String
     None
 }
 
-fn check_case(ch: &Children, case: &Case, probe: &mut Probe) -> Result<(), String> {
-    let cc = case.child();
-    // 1 case in 16 (chosen by its digest): one child pauses 1.1 s between its two repetitions
-    let pause = crate::engine::digest64(&case.key()) % 16 == 0;
-    if pause {
-        probe.label("wall_clock_pause=1100ms");
-    }
-    let results = match run_children(ch, std::slice::from_ref(&cc), false, pause) {
-        Ok(r) => r,
-        Err(e) => {
-            // a child that dies is only a C05 matter if the others do not: decide by re-running once
-            match run_children(ch, std::slice::from_ref(&cc), false, pause) {
-                Ok(_) => {
-                    return Err(format!("process-dependent failure: a child process failed on this case ({e}) and succeeded when started again"));
-                }
-                Err(e2) => {
-                    infra(format!("children failed twice on one case ({}): {e} / {e2}", case.origin));
-                    probe.label("infra=child_failed");
-                    return Ok(());
-                }
-            }
-        }
-    };
-    let rep0 = &results[0][0].reps[0];
-    // classification
+fn classify(case: &Case, rep0: &Rep, probe: &mut Probe) -> bool {
     probe.label(if rep0.stbc == "ERR" { "compile=rejected" } else if rep0.stbc.starts_with("PANIC") { "compile=panic" } else { "compile=ok" });
     let origin = if case.origin.starts_with("corpus") { "corpus" } else { "generated" };
     probe.label(format!("origin={origin}"));
@@ -471,46 +497,122 @@ fn check_case(ch: &Children, case: &Case, probe: &mut Probe) -> Result<(), Strin
         probe.label(format!("namespaces={}", s.namespaces));
         probe.label(if s.io_bindings > 0 { "io_bindings=some" } else { "io_bindings=none" });
         probe.label(if s.retain_vars > 0 { "retain=some" } else { "retain=none" });
+        probe.label(format!("aggregate_types={}", bucket(s.aggregate_types)));
     }
-    if rep0.stbc.len() == 64 && rep0.pous >= 3 && rep0.strings >= 20 && case.trace.len() >= 2 {
-        probe.nontrivial(&case.key());
-        probe.sample(json!({
-            "origin": case.origin,
-            "files": case.files.len(),
-            "source_bytes": case.files.iter().map(|f| f.text.len()).sum::<usize>(),
-            "pous": rep0.pous,
-            "strings": rep0.strings,
-            "stbc_bytes": rep0.stbc_len,
-            "cycles": case.trace.len(),
-            "stats": case.stats,
-        }));
+    rep0.stbc.len() == 64 && rep0.pous >= 3 && rep0.strings >= 20 && case.trace.len() >= 2
+}
+
+fn history(k: usize, n: usize, case_idx: usize, process: usize) -> String {
+    let _ = k;
+    let order = child_order(process, n);
+    let pos = order.iter().position(|x| *x == case_idx).unwrap_or(0);
+    let before: Vec<String> = order[..pos].iter().map(|x| format!("#{x}")).collect();
+    format!(
+        "process {process} ({}, order {:?}: project #{case_idx} ran {})",
+        if child_separate_threads(process) { "one thread per project" } else { "whole batch on one thread" },
+        order,
+        if before.is_empty() { "first".to_string() } else { format!("after {}", before.join(", ")) }
+    )
+}
+
+fn check_batch(ch: &Children, cases: &[Case], probe: &mut Probe) -> Result<(), String> {
+    if cases.is_empty() {
+        return Ok(());
     }
-    if let Some((what, a, b)) = find_mismatch(&results, 0) {
-        let mut msg = format!(
-            "non-deterministic: {what}\n  between process {} repetition {} and process {} repetition {} ({} project, {} file(s))",
-            a.0, a.1, b.0, b.1, case.origin, case.files.len()
-        );
-        // best effort: run again with the artefacts as text and show the first differing line
-        if let Ok(full) = run_children(ch, std::slice::from_ref(&cc), true, pause) {
-            let mut obs: Vec<&Rep> = Vec::new();
-            for r in &full {
-                for rep in &r[0].reps {
-                    obs.push(rep);
+    let ccs: Vec<ChildCase> = cases.iter().map(|c| c.child()).collect();
+    let mut key = Vec::new();
+    for c in cases {
+        key.extend_from_slice(&c.key());
+        key.push(1);
+    }
+    // 1 batch in 6 (chosen by its digest): one child pauses 1.1 s between the two repetitions
+    // of the first project it processes
+    let pause = crate::engine::digest64(&key) % 6 == 0;
+    if pause {
+        probe.label("wall_clock_pause=1100ms");
+    }
+    let results = match run_children(ch, &ccs, false, pause) {
+        Ok(r) => r,
+        Err(e) => {
+            // a child that dies is only a C05 matter if the others do not: decide by re-running once
+            match run_children(ch, &ccs, false, pause) {
+                Ok(_) => {
+                    return Err(format!("process-dependent failure: a child process failed on this batch ({e}) and succeeded when started again"));
                 }
-            }
-            'outer: for i in 0..obs.len() {
-                for j in i + 1..obs.len() {
-                    if first_difference(obs[i], obs[j]).is_some() {
-                        if let Some(d) = full_diff(obs[i], obs[j]) {
-                            msg.push_str("\n  ");
-                            msg.push_str(&d);
-                        }
-                        break 'outer;
-                    }
+                Err(e2) => {
+                    infra(format!("children failed twice on one batch ({}): {e} / {e2}", cases[0].origin));
+                    probe.label("infra=child_failed");
+                    return Ok(());
                 }
             }
         }
-        return Err(msg);
+    };
+    probe.label(format!("batch_size={}", cases.len()));
+    let mut good = 0;
+    let mut type_tables: Vec<&str> = Vec::new();
+    for (j, case) in cases.iter().enumerate() {
+        let rep0 = &results[0][j].reps[0];
+        if classify(case, rep0, probe) {
+            good += 1;
+        }
+        if let Some((_, d)) = rep0.sections.iter().find(|(id, _)| *id == 2) {
+            if !type_tables.contains(&d.as_str()) {
+                type_tables.push(d.as_str());
+            }
+        }
+    }
+    probe.label(format!("distinct_type_tables_in_batch={}", type_tables.len()));
+    if good >= 1 && (good >= 2 || cases.len() == 1) {
+        probe.nontrivial(&key);
+        let rep0 = &results[0][0].reps[0];
+        probe.sample(json!({
+            "batch": cases.iter().enumerate().map(|(j, c)| json!({
+                "origin": c.origin,
+                "files": c.files.len(),
+                "source_bytes": c.files.iter().map(|f| f.text.len()).sum::<usize>(),
+                "pous": results[0][j].reps[0].pous,
+                "strings": results[0][j].reps[0].strings,
+                "stbc_bytes": results[0][j].reps[0].stbc_len,
+                "cycles": c.trace.len(),
+                "stats": c.stats,
+            })).collect::<Vec<_>>(),
+            "first_stbc_sha256": rep0.stbc,
+        }));
+    }
+    for (j, case) in cases.iter().enumerate() {
+        if let Some((what, a, b)) = find_mismatch(&results, j) {
+            let mut msg = format!(
+                "non-deterministic: {what}\n  project #{j} of a batch of {} ({} project, {} file(s)), repetition {} in {}\n  versus repetition {} in {}",
+                cases.len(),
+                case.origin,
+                case.files.len(),
+                a.1,
+                history(ch.k, cases.len(), j, a.0),
+                b.1,
+                history(ch.k, cases.len(), j, b.0)
+            );
+            // best effort: run again with the artefacts as text and show the first differing line
+            if let Ok(full) = run_children(ch, &ccs, true, pause) {
+                let mut obs: Vec<&Rep> = Vec::new();
+                for r in &full {
+                    for rep in &r[j].reps {
+                        obs.push(rep);
+                    }
+                }
+                'outer: for x in 0..obs.len() {
+                    for y in x + 1..obs.len() {
+                        if first_difference(obs[x], obs[y]).is_some() {
+                            if let Some(d) = full_diff(obs[x], obs[y]) {
+                                msg.push_str("\n  ");
+                                msg.push_str(&d);
+                            }
+                            break 'outer;
+                        }
+                    }
+                }
+            }
+            return Err(msg);
+        }
     }
     Ok(())
 }
@@ -565,26 +667,28 @@ fn run(ctx: &mut RunCtx) {
     let _ = std::fs::create_dir_all(&job_dir);
     let ch = Children { k, job_path: job_dir.join(format!("job-w{}-{}", ctx.worker, std::process::id())) };
 
+    // generated batches: BATCH different projects per evaluation
     reset_budget();
-    ctx.search("gen", gen_case_strategy(), tier.pick(520, 20_000), |c: &Case, p| budgeted(c.fresh, || check_case(&ch, c, p)));
+    let batch_strategy = proptest::collection::vec(gen_case_strategy(), BATCH).prop_map(|cases| Batch { cases, fresh: true });
+    ctx.search("batch", batch_strategy, tier.pick(174, 6_700), |b: &Batch, p| budgeted(b.fresh, || check_batch(&ch, &b.cases, p)));
 
     let projects = corpus_projects();
     ctx.note(format!("corpus: {} projects (directories with >= 2 .st files + every single .st file of /repo)", projects.len()));
     if !projects.is_empty() {
         let n = projects.len();
-        let strat = (0..n, proptest::collection::vec(words(8), 2..=4), any::<bool>());
+        let pick = (0..n, proptest::collection::vec(words(8), 2..=4), any::<bool>())
+            .prop_map(|(i, steps, with_paths)| CorpusPick { project: i, steps, with_paths, fresh: true });
+        let strat = proptest::collection::vec(pick, BATCH).prop_map(|picks| CorpusBatch { picks, fresh: true });
         let projects_ref = &projects;
         reset_budget();
-        ctx.search(
-            "corpus",
-            strat.prop_map(move |(i, steps, with_paths)| CorpusPick { project: i, steps, with_paths, fresh: true }),
-            tier.pick(80, 1200),
-            |c: &CorpusPick, p| {
-                let proj = &projects_ref[c.project.min(projects_ref.len() - 1)];
-                let case = corpus_case(proj, &c.steps, c.with_paths);
-                budgeted(c.fresh, || check_case(&ch, &case, p))
-            },
-        );
+        ctx.search("corpus", strat, tier.pick(27, 400), |c: &CorpusBatch, p| {
+            let cases: Vec<Case> = c
+                .picks
+                .iter()
+                .map(|k| corpus_case(&projects_ref[k.project.min(projects_ref.len() - 1)], &k.steps, k.with_paths))
+                .collect();
+            budgeted(c.fresh, || check_batch(&ch, &cases, p))
+        });
     }
     for i in 0..6 {
         let _ = std::fs::remove_file(ch.job_path.with_extension(format!("{i}.json")));
